@@ -17,7 +17,7 @@ VARIABLES l, H
 vars == <<l, H>>
 
 NoOut == [set |-> FALSE]
-EmptyH == [scen |-> "", par |-> [variant |-> "none"], sent |-> <<>>, arr |-> <<>>, del |-> <<>>,
+EmptyH == [scen |-> "", par |-> [variant |-> "none"], sent |-> <<>>, arr |-> <<>>, del |-> <<>>, fil |-> <<>>,
            twinof |-> "", hlog |-> <<>>, flt |-> <<>>, cancel |-> -1, out |-> NoOut, got |-> <<>>, due |-> <<>>, twin |-> NoOut]
 
 \* The state keeps only LINE NUMBERS of the events (small states: TLC fingerprints every state); the history record the
@@ -30,6 +30,7 @@ Step(h, e, ln) ==
       [] e.event = "Send"    -> [h EXCEPT !.sent = Append(@, ln)]
       [] e.event = "Arrive"  -> [h EXCEPT !.arr = Append(@, ln)]
       [] e.event = "Deliver" -> [h EXCEPT !.del = Append(@, ln)]
+      [] e.event = "Filtered" -> [h EXCEPT !.fil = Append(@, ln)]      \* rejected by the capture filter the code installed
       [] e.event \in {"Got", "Alloc"} -> [h EXCEPT !.got = Append(@, ln)]
       [] e.event = "Due"     -> [h EXCEPT !.due = Append(@, ln)]
       [] e.event \in {"Open", "Close", "SetFilter", "UseAfterClose", "Accept"} -> [h EXCEPT !.hlog = Append(@, ln)]
@@ -45,6 +46,7 @@ Mat(h) == [h EXCEPT
     !.sent = [k \in DOMAIN h.sent |-> SentRec(Trace[h.sent[k]])],
     !.arr  = [k \in DOMAIN h.arr |-> LET e == Trace[h.arr[k]] IN [n |-> e.n, t |-> e.t, tag |-> e.tag, for_ttl |-> e.for_ttl, d |-> e.d]],
     !.del  = [k \in DOMAIN h.del |-> LET e == Trace[h.del[k]] IN [n |-> e.n, t |-> e.t, pkt |-> e.pkt, h |-> e.h, run |-> e.run]],
+    !.fil  = [k \in DOMAIN h.fil |-> LET e == Trace[h.fil[k]] IN [n |-> e.n, t |-> e.t, pkt |-> e.pkt, h |-> e.h, run |-> e.run]],
     !.got  = [k \in DOMAIN h.got |-> Trace[h.got[k]]],
     !.due  = [k \in DOMAIN h.due |-> Trace[h.due[k]]],
     !.hlog = [k \in DOMAIN h.hlog |-> LET e == Trace[h.hlog[k]] IN [ev |-> e.event] @@ e],
@@ -147,7 +149,8 @@ Holds(p, h) ==
                           [] p = "C07" -> C07_eng(h) [] p = "C08" -> C08_eng(h) [] p = "C10" -> C10_eng(h) [] OTHER -> TRUE)
       [] ReqRun(h) -> (CASE p = "C11" -> C11_run(h) [] p = "C15" -> C15_run(h) [] p = "C19" -> C19_run(h) [] p = "C20" -> C20_run(h) [] p = "C17" -> C17_run(h) [] OTHER -> TRUE)
       [] p = "C01" -> C01_run(h, s, d, hp)
-      [] p = "C02" -> C02_run(h, s, d, hp)
+      \* completeness is owed to what ARRIVED at the host: a packet the installed capture filter rejected counts as arrived
+      [] p = "C02" -> C02_run(h, s, IF h.par.filter THEN SortSeq(d \o SelectSeq(h.fil, LAMBDA x : x.run = 1), LAMBDA a, b : a.n < b.n) ELSE d, hp)
       [] p = "C03" -> C03_run(h, s, d, hp)
       [] p = "C04" -> C04_run(h, s, d, hp)
       [] p = "C05" -> C05_run(h, s, d, hp)
